@@ -81,6 +81,26 @@ def literal_guard(ctx, t):
     return None
 
 
+def tokeniser_state(body, paths):
+    """the three state variables by ROLE (not by name): the vector and the revision that end up in the returned
+    DeweyVersion{version, pkgrevision}, and the cursor that the loop-exit test compares with the input's length"""
+    loc = {}
+    for p in ret_paths(paths):
+        a = agg_variant(p.end[1])
+        if not a:
+            continue
+        flds = dict(zip(p.end[1][5], a[2]))
+        for role in ("version", "pkgrevision"):
+            t = flds.get(role)
+            if isinstance(t, tuple) and t[0] in ("havoc", "mutated"):
+                loc[role] = t[1]
+        for c in p.conds():
+            t = c.term
+            if isinstance(t, tuple) and t[0] == "binop" and t[1] in ("Eq", "Ge", "Lt", "Ne") and isinstance(t[2], tuple) and t[2][0] == "havoc" and is_call(t[3], "str>::len"):
+                loc["idx"] = t[2][1]
+    return loc
+
+
 def run(ctx):
     fx = ctx.fx
     sp = spec("dewey_tokens.json")
@@ -88,9 +108,8 @@ def run(ctx):
     body = ctx.body(DV)
     if not paths:
         return
-    names = {i: body.local_name(i) for i in range(len(body.f["locals"]))}
-    loc = {v: k for k, v in names.items() if v in ("version", "pkgrevision", "idx")}
-    ctx.floor("D1-TOK-TABLE", DV, "tokeniser state locals (version, pkgrevision, idx)", len(loc), 3)
+    loc = tokeniser_state(body, paths)
+    ctx.floor("D1-TOK-TABLE", DV, "tokeniser state locals (version, pkgrevision, cursor)", len(loc), 3)
     if len(loc) < 3:
         return
     backs = [p for p in paths if p.end[0] == "back"]
